@@ -35,7 +35,9 @@ x-direction |x' - x| <= 1e-6 * max(|x|, Sx); y-direction |y' - y| <= 1e-6 * max(
 Logit      x in (lower, upper), Sx = max(|lower|, upper-lower); y: |y| <= 10 and |lower| <= 100 (upper-lower), Sy = 1
 Log        x + nu > 0 (log finite), Sx = |nu|; y: exp(bf y) >= 1e-6 |nu|, |bf y| <= 700, Sy = 1/|bf|
 BoxCox*    x + nu > 0, |lam ln(x+nu)| <= 13.8 (power branch), Sx = |nu|; y: 0 < lam y + 1, |ln(lam y + 1)| <= 13.8,
-           backward(y) + nu >= 1e-6 |nu|, Sy = 1; BoxCox2sym also |lam ln nu| <= 13.8, nu > 0, Sy = max(1, |BC(0)|)
+           backward(y) + nu >= 1e-6 |nu|, Sy = 1; BoxCox2sym (s = |x| + nu) also |lam ln nu| <= 13.8,
+           |lam ln(s/nu)| <= 13.8 (for lam < 0 the transform saturates: the inverse has condition number
+           ((s/nu)^|lam| - 1)/|lam|), nu > 0, Sy = max(1, |BC(0)|)
            1e-10 < |lam| <= 1e-9 loses up to ~4e-6 by cancellation: known finding */power/lam_just_above_switch
 YeoJohnson w = nu + scale x: |lam ln(1+w)| <= 13.8 (w >= EPS), |(2-lam) ln(1-w)| <= 13.8 (w < EPS),
            Sx = (1+|nu|)/scale; y: argument of the power positive with |ln| <= 13.8, |nu| <= 1e6 (1+|w|), Sy = 1
@@ -454,7 +456,7 @@ def region_x(cls, P, x):
         if abs(lam) > EPS:
             if abs(lam * math.log(s)) > 13.8:
                 return None
-            if cls == "BoxCox2sym" and abs(lam * math.log(nu)) > 13.8:
+            if cls == "BoxCox2sym" and (abs(lam * math.log(nu)) > 13.8 or abs(lam * math.log(s / nu)) > 13.8):
                 return None
             return (abs(nu), "power", "lam_just_above_switch" if abs(lam) <= 1e-9 else None)
         return (abs(nu), "log", None)
@@ -555,6 +557,8 @@ def region_y(cls, P, y, x):
             s = math.exp(u)
             tag = "log"
         if not (fin(s) and s >= 1e-6 * abs(nu)) or s < 1e-300:
+            return None
+        if cls == "BoxCox2sym" and abs(lam * math.log(s / nu)) > 13.8:
             return None
         return (sy, tag, "lam_just_above_switch" if (tag == "power" and abs(lam) <= 1e-9) else None)
     if cls == "YeoJohnson":
@@ -885,7 +889,7 @@ def body(ctx):
             accepted = True
         except ValueError:
             accepted = False
-        valid = all(v >= 0 for r in rows for v in r) and all(sum(r) <= 1 - EPS * (1 + 1e-6) for r in rows)
+        valid = all(v >= 0 for r in rows for v in r) and all(math.fsum(r) <= 1 - EPS - 1e-13 for r in rows)
         if valid and not accepted:
             ctx.finding("Softmax/rejects_valid", "a 2-D array with non-negative rows summing below 1-EPS was rejected",
                         {"rows": rows})
